@@ -99,7 +99,7 @@ def run(ctx):
     c11.run(sub)
     c13.run(sub)
     # ElGamal transcript + generator (from C14)
-    sub = _Sub(ctx, ("E5.transcript", "E3.transcript", "E5.generator", "E1.enc_dst"))
+    sub = _Sub(ctx, ("E5.transcript", "E3.transcript", "E5.generator", "E1.enc_dst", "E5.response", "E5.response.anchor"))
     C14.run(sub)
     # augmentation / PoP framing (shared with C03)
     K.check_core_table(ctx, P, methods=("sign", "partial_sign", "verify", "partial_verify", "pop_prove", "pop_verify", "multi_sig_verify"))
